@@ -58,7 +58,9 @@ def z3num(v):
     if isinstance(v, float):
         if v != v or v in (float("inf"), float("-inf")):
             raise Unsupported("nan/inf in real arithmetic")
-        return z3.RealVal(repr(v))
+        import fractions as _fr
+
+        return z3.RealVal(str(_fr.Fraction(repr(float(v)))))  # the decimal value the literal denotes (L-FLOAT)
     import fractions
     import numpy as np
 
